@@ -9,6 +9,7 @@
    [io_log] is the list of system identifiers the oracle was asked for
    (= files opened / URLs fetched). *)
 From SV Require Import Lib.Base C20.Entities C20.IoProofs C20.ContentProofs C20.FuelProofs.
+From SV Require Import C20.Loader C20.LoaderProofs.
 
 (* With external general entities off, NO document -- whatever its internal
    subset, external subset, general / parameter entity declarations, nesting
@@ -90,6 +91,48 @@ Theorem content_fuel_suffices : forall ext fuel d lvl tags l,
   length (gents d) < fuel -> snd (content ext fuel d [] lvl tags l) <> Fuel.
 Proof. exact FuelProofs.content_fuel_suffices. Qed.
 Print Assumptions content_fuel_suffices.
+
+(* ---- the documents that ARE fetched (model: C20/Loader.v) ---- *)
+
+(* The loader asks its store / transport only for documents named by the
+   caller or, transitively, by import / include references. *)
+Theorem loader_fetches_only_named : forall fuel w root u,
+  In u (load fuel w [root] []) -> named w [root] u.
+Proof. exact load_named. Qed.
+Print Assumptions loader_fetches_only_named.
+
+(* What names a document is decided by namespace: an element outside the XSD
+   and WSDL namespaces names nothing, whatever its local name (include,
+   import, ...), position and schemaLocation / location attributes. *)
+Theorem foreign_namespace_names_nothing : forall c,
+  fst (c_name c) <> ns_xsd -> fst (c_name c) <> ns_wsdl -> ref_of c = None.
+Proof. exact foreign_ref_of. Qed.
+Print Assumptions foreign_namespace_names_nothing.
+
+(* Putting such look-alikes anywhere into any document of the world changes
+   neither what the document names nor what the loader fetches. *)
+Theorem lookalikes_change_no_fetch : forall fuel (w1 w2 : world) root,
+  (forall u, refs_at w1 u = refs_at w2 u) -> load fuel w1 [root] [] = load fuel w2 [root] [].
+Proof. intros; apply load_ext; assumption. Qed.
+Print Assumptions lookalikes_change_no_fetch.
+
+Theorem lookalike_names_nothing_in_context : forall a c b,
+  fst (c_name c) <> ns_xsd -> fst (c_name c) <> ns_wsdl -> refs (a ++ c :: b) = refs (a ++ b).
+Proof. exact refs_insert_foreign. Qed.
+Print Assumptions lookalike_names_nothing_in_context.
+
+(* non-vacuity: a schema with a real xs:include and a vendor doc:include *)
+Definition lk_schema : list cand :=
+  [mkCand [(ns_xsd, l_schema)] (7, l_include) (Some 20) None;           (* <doc:include schemaLocation=20> *)
+   mkCand [(ns_xsd, l_schema)] (ns_xsd, l_include) (Some 21) None;      (* <xs:include schemaLocation=21>  *)
+   mkCand [(ns_xsd, l_schema); (ns_xsd, 9); (ns_xsd, 10)] (ns_xsd, l_import) (Some 22) None]%N.
+                                                                        (* xs:import inside annotation/appinfo *)
+Example lk_schema_names : refs lk_schema = [21%N].
+Proof. reflexivity. Qed.
+Example lk_load :
+  load 8 (fun u => if N.eqb u 1 then Some lk_schema else if N.eqb u 21 then Some [] else None) [1%N] []
+  = [1; 21]%N.
+Proof. reflexivity. Qed.
 
 (* The gate is what protects: the same reader with the feature ON does open
    the file and does include its content (so the theorems above are about
